@@ -238,6 +238,13 @@ return run(xs, a, b)
         a = rnd.choice(xs) if rnd.random() < 0.6 else rnd.choice(P)
         if rnd.random() < 0.3:
             a = flt(a)
+        if i % 4 == 1:
+            # the needle is ANOTHER value of the pool that compares equal to an element (a date and the datetime at its midnight, an aware
+            # and the equal naive datetime, two regexes, 1 and 1.0, containers of those): found exactly where the comparison says
+            twins = [(x, y) for x in xs for y in P if y is not x and not callable(y) and rcmp(x, y) == 0 and type(x) is not type(y) or (isinstance(x, (list, dict)) and y is not x and rcmp(x, y) == 0 and repr(x) != repr(y))]
+            if twins:
+                a = rnd.choice(twins)[1]
+                acc.count('needle_equal_but_other_value')
         b = rnd.choice(P)
         case = {'xs': refval.enc(xs), 'a': refval.enc(a), 'b': refval.enc(b)}
         acc.case((repr(refval.canon(xs)), repr(refval.canon(a)), repr(refval.canon(b))), True)
